@@ -5,9 +5,8 @@
   append, advance, scanner, multi-segment queue, torn writes).
   Statement checker: Influx.Spec.C26.holdsOn.
 -/
-import Influx.Model.DurableQueueStep
-import Influx.Spec.C26
-import Influx.Lemmas.DurableQueueCrash
+import Influx.Lemmas.DurableQueueSim
+import Influx.Generated.DurableQueue
 
 namespace Influx.Props.C26
 open Influx.DQ Influx.Spec.C26
@@ -19,12 +18,58 @@ def f10 : List Op :=
   [.openQ 100000 1024, .append [1,2,3,4,5,6,7,8],
    .crashAppend [11,12,13,14,15,16,17,18,19,20,21,22,23,24,25,26] 8, .cur]
 
-/-- The full statement (every history, every cut) is FALSE of the code: witness F10. -/
-theorem C26_full_fails : ¬ (∀ ops : List Op, holdsOn (trace init ops) = true) := by
+/-- The full statement (every history, every cut) is FALSE of the code: witness F10
+    (a valid, small history; only `GoodRun` — "no footer-like tear" — fails for it). -/
+theorem C26_full_fails :
+    ¬ (∀ ops : List Op, (∀ op ∈ ops, ValidOp op) → cost ops + 8 < 2^63 → holdsOn (trace init ops) = true) := by
   intro h
-  have := h f10
+  have := h f10 (by intro op hop; simp [f10] at hop; rcases hop with rfl | rfl | rfl | rfl <;> simp [ValidOp])
+    (by decide)
   revert this
   decide
+
+/-- **C26 for the model, every history with crashes at every cut** (unbounded):
+    append / current / advance / scanner pass / clean reopen / crash inside an
+    append or inside an advance at ANY byte of its write, over any number of
+    segments — the statement checker accepts the model's trace (entries come back
+    in append order, nothing unconsumed is lost by a reopen or crash, nothing that
+    was not appended is delivered, a rejected append changes nothing), provided
+    * `ValidOp`: segment size ≥ 8, appended entries non-empty,
+    * fewer than 2^63 bytes are appended in total,
+    * `GoodRun`: no crash leaves a torn file whose last 8 bytes pass for a head
+      position (`TornObs.footerLike`) — exactly the negation of the known finding
+      `torn-append-footer-misread` / `torn-advance-footer-misread` (F10). -/
+theorem C26_holdsOn_partial (ops : List Op) (hv : ∀ op ∈ ops, ValidOp op)
+    (hsmall : cost ops + 8 < 2^63) (hg : GoodRun init ops) :
+    holdsOn (trace init ops) = true := by
+  obtain ⟨B', s', hrel⟩ := sim_trace ops (cost ops) init none (by simp [init, Rel]) hv hg (Nat.le_refl _) (by omega)
+  unfold holdsOn run
+  cases hfin : List.foldl sstep none (trace init ops) with
+  | none => rfl
+  | some ws =>
+    rw [hfin] at hrel
+    cases s' with
+    | none => exact absurd hrel (by simp [Rel])
+    | some q =>
+      obtain ⟨w, hw, _⟩ := hrel
+      cases ws with
+      | nil => cases hw
+      | cons _ _ => rfl
+
+/-- the hypotheses are met by a non-trivial history: two appends, a crash 3 bytes
+    into the next append (repaired), deliveries, a crash 4 bytes into an advance -/
+example : let ops : List Op := [.openQ 100000 1024, .append [1,2,3], .append [9],
+      .crashAppend [4,5,6,7] 11, .cur, .adv, .crashAdv 4, .cur, .scan 2, .reopen, .cur]
+    (∀ op ∈ ops, ValidOp op) ∧ cost ops + 8 < 2^63 ∧ GoodRun init ops := by
+  refine ⟨?_, by decide, goodRun_of_B _ _ (by decide)⟩
+  intro op hop
+  exact validOp_of_B op (by revert op; decide)
+
+/-- **No-crash FIFO refinement** (full for crash-free histories): without crash
+    operations no `GoodRun` hypothesis is needed. -/
+theorem C26_fifo_nocrash (ops : List Op) (hv : ∀ op ∈ ops, ValidOp op) (hsmall : cost ops + 8 < 2^63)
+    (hnc : noCrash ops = true) : holdsOn (trace init ops) = true :=
+  C26_holdsOn_partial ops hv hsmall (goodRun_of_noCrash ops init hnc)
 
 /-- **Crash inside an append, every cut** (segment level, unbounded): if the torn
     file does not end in 8 bytes that pass for a head position
@@ -45,11 +90,15 @@ theorem C26_torn_advance (mx : Nat) {s : Seg} {done : List Bytes} {r : Bytes} {r
   torn_advance_recovers mx h k hnf
 
 /-- No-crash segment FIFO: `current` returns the first unconsumed record, `advance`
-    moves past exactly it, `append` adds at the end, a clean reopen changes nothing. -/
+    moves past exactly it, a clean reopen changes nothing. -/
 theorem C26_segment_fifo {s : Seg} {done : List Bytes} {r : Bytes} {rs : List Bytes}
     (h : SegWF s done (r :: rs)) :
     s.current = .ok r ∧ SegWF s.advance.1 (done ++ [r]) rs ∧
     (∀ mx, newSeg verifyAll mx s.file = some ⟨s.file, s.pos, max mx s.file.length⟩) :=
   ⟨current_wf_cons h, (advance_wf_cons h).1, fun mx => newSeg_wf mx h⟩
+
+/-- the footer size the model hard-wires (8 bytes: `rd64`/`be64`, `size - 8`) is the
+    code's `footerSize` (regenerated from queue.go on every run) -/
+theorem C26_footer_const : Influx.Generated.DurableQueue.footerSize = (be64 0).length := rfl
 
 end Influx.Props.C26
